@@ -88,6 +88,10 @@ func (v *Env) lookup(name string) *Val {
 	if c := v.pkgConst(name); c != nil {
 		return c
 	}
+	// package-level variable: its value in the state of the clause
+	if g := v.pkgVar(name); g != nil {
+		return g
+	}
 	// source-level local: the definition that reaches the program point of the clause
 	if v.at != nil {
 		if x := v.reaching(name); x != nil {
@@ -159,6 +163,25 @@ func (v *Env) cellOf(obj types.Object) ssa.Value {
 		}
 	}
 	return e.cellVars[obj.Name()]
+}
+
+func (v *Env) pkgVar(name string) *Val {
+	fn := v.e.fn
+	for fn.Parent() != nil {
+		fn = fn.Parent()
+	}
+	if fn.Pkg == nil {
+		return nil
+	}
+	g, ok := fn.Pkg.Members[name].(*ssa.Global)
+	if !ok {
+		return nil
+	}
+	pt, ok := g.Type().Underlying().(*types.Pointer)
+	if !ok {
+		return nil
+	}
+	return v.e.loadAt(v.st, v.e.val(g).c[0], pt.Elem())
 }
 
 func (v *Env) debugRefVal(d *ssa.DebugRef) *Val {
@@ -401,6 +424,14 @@ func (v *Env) eval(x Expr) *Val {
 				return &Val{typ: tBool, c: []string{e.strlt(a.c[0], b.c[0])}}
 			}
 			return &Val{typ: tBool, c: []string{e.numLess(a, b)}}
+		case "isNaN":
+			return &Val{typ: tBool, c: []string{app("fp.isNaN", v.eval(x.Args[0]).c[0])}}
+		case "isPosInf":
+			a := v.eval(x.Args[0]).c[0]
+			return &Val{typ: tBool, c: []string{and(app("fp.isInfinite", a), app("fp.isPositive", a))}}
+		case "isNegInf":
+			a := v.eval(x.Args[0]).c[0]
+			return &Val{typ: tBool, c: []string{and(app("fp.isInfinite", a), app("fp.isNegative", a))}}
 		case "strlt":
 			a, b := v.eval(x.Args[0]), v.eval(x.Args[1])
 			return &Val{typ: tBool, c: []string{e.strlt(a.c[0], b.c[0])}}
